@@ -50,6 +50,12 @@ def items(tier, seed):
     # D. other radices
     for (t, e, r) in OTHER_RADIX:
         sc(t, e, r, 'v_%s' % t, 1, 0.6)
+    # input radix above ten (open class input_radix_above_ten for positive exponents): every value of 8-bit reps,
+    # and the two witnesses on 64-bit significands
+    for (t, e, r) in [('i8', 20, 16), ('u8', 3, 16), ('i8', -3, 16), ('u8', 14, 12)]:
+        sc(t, e, r, 'v_%s' % t, 1, 0.8)
+    out.append((0.1, 'tc::sc_one<std::uint64_t, 1, 16>(std::uint64_t(1) << 60, 30);'))
+    out.append((0.1, 'tc::sc_one<std::int64_t, 1, 16>(std::int64_t(1) << 59, 30);'))
     if thorough:
         for _ in range(12):
             t = rnd.choice(['i8', 'u8', 'i16', 'i32', 'i64'])
@@ -72,9 +78,15 @@ def items(tier, seed):
         out.append((0.1, 'tc::fix_sweep<scaled_integer<%s, power<%d, %d>>>(v_%s);' % (CT[t], e, r, t)))
     for t in CT:
         out.append((0.1, 'tc::fix_sweep<%s>(v_%s);' % (CT[t], t)))
-    # to_chars_static<Base>: bases other than ten
+    # to_chars_static<Base>: bases other than ten, many values
     for (t, b) in [('u8', 2), ('i8', 7), ('i32', 2), ('i32', 16), ('u16', 3), ('i64', 36), ('u64', 8), ('i128', 16), ('u32', rnd.randint(2, 36))]:
         out.append((0.1, 'tc::fixb_sweep<%s, %d>(v_%s);' % (CT[t], b, t)))
+    # to_chars_static<Base>: EVERY base 2..36 at the limits of every width (+ to_chars_capacity<T>{}(base) for every base)
+    for t in CT:
+        out.append((0.5, 'tc::fixb_all<%s>(rng);' % CT[t]))
+    # ... and of wide_integer<D, int>
+    for d in sorted(set([65, 127, 128, 200, rnd.randint(66, 260)])):
+        out.append((1.0, 'tc::fixbw_all<%d>();' % d))
     return out
 
 
@@ -120,7 +132,7 @@ def tus_for(table, tier, seed):
         w += wt
     flush()
     if table == 'C13':
-        # capacities of wide integer types for every digit count 65..260 (compile-time constants)
+        # capacities of wide integer types for every digit count 65..260, in every base 2..36
         hdr = __file__.replace('C14.py', 'C13.py').replace('.py', '.h')
         body = '#include "%s"\nint main(){ tc::init(); wide_caps<65, 98>(tc::table); wide_caps<163, 98>(tc::table); }\n' % hdr
         res.append(dict(name='C13_widecaps', src=body, compiler='g++', env={'VH_TABLE': table}))
